@@ -223,5 +223,11 @@ theorem step_objs (v : Variant) (s : State) (op : Op) : ObjsExt s (step v s op).
     split; exact ObjsExt.refl s; exact delFrame_objs _ _ _
   | moveFrame sd sfn d fn => simp only [step, withFrame]; split; exact ObjsExt.refl s; exact moveFrame_objs _ _ _ _ _ _
   | reopen d => exact ObjsExt.of_eq rfl
+  | view r =>
+    simp only [step, withField]; split; exact ObjsExt.refl s
+    apply void_objs
+    unfold viewField; split
+    · exact ObjsExt.refl s
+    · exact ObjsExt.of_eq rfl
 
 end Exetera.Catalogue
